@@ -348,6 +348,7 @@ func cacheApply(s CState, in CIn) (CExpect, CState) {
 		if s.live(k) {
 			ex.Out = COut{V: int(s.Ent[k].V), Ok: true}
 		}
+		lazily() // a traversal that meets an expired entry may clean it up (observed, not specified)
 	case CRangeNil:
 	case CClear:
 		for i := range s.Ent {
